@@ -22,6 +22,7 @@ import QV.Prelude
 import QV.Generated.Consts
 import QV.Generated.Tables
 import QV.Model.Compress
+import QV.Model.Rdata
 
 namespace QV.Writer
 open QV QV.Wire
@@ -270,36 +271,23 @@ inductive CompType where
   | compressibleName | uncompressibleName | fixedLen (n : Nat)
   deriving Repr, DecidableEq, Inhabited
 
-/-- one arm of the `match rr_type` in `Rdata::components`: type mnemonics, optional class guard,
-    the component types of the constructor it calls -/
-structure CompArm where
-  types : List String
-  classGuard : Option String
-  comps : List CompType
-  deriving Repr, DecidableEq, Inhabited
+/-- a generated component type tag: ("C",_) compressible name, ("U",_) uncompressible name,
+    ("F",n) `FixedLen(n)` -/
+def convCompType (t : String × Nat) : Option CompType :=
+  if t.1 = "C" then some .compressibleName
+  else if t.1 = "U" then some .uncompressibleName
+  else if t.1 = "F" then some (.fixedLen t.2)
+  else none
 
-/-- the arms of `Rdata::components` in source order (the fallback `_ => for_nameless` is `[]`).
-    Checked against the source by the extractor (`QV.Gen.componentsArms`, see
-    `Proofs/Writer.lean: componentsTable_eq_generated`). -/
-def componentsTable : List CompArm :=
-  [ ⟨["NS", "MD", "MF", "CNAME", "MB", "MG", "MR", "PTR"], none, [.compressibleName]⟩,
-    ⟨["A"], some "CH", [.uncompressibleName]⟩,
-    ⟨["SOA"], none, [.compressibleName, .compressibleName]⟩,
-    ⟨["MINFO"], none, [.compressibleName, .compressibleName]⟩,
-    ⟨["MX"], none, [.fixedLen 2, .compressibleName]⟩,
-    ⟨["SRV"], some "IN", [.fixedLen 6, .uncompressibleName]⟩ ]
-
-def armMatches (cls ty : Nat) (a : CompArm) : Bool :=
-  a.types.any (fun t => (Gen.typeConsts.lookup t) == some ty) &&
-  (match a.classGuard with
-   | none => true
-   | some c => (Gen.classConsts.lookup c) == some cls)
-
-/-- mirrors `Rdata::components(class, rr_type)`: the `types` of the `Components` iterator -/
-def componentTypes (cls ty : Nat) : List CompType :=
-  match componentsTable.find? (armMatches cls ty) with
-  | some a => a.comps
-  | none => []
+/-- mirrors `Rdata::components(class, rr_type)`: the `types` of the `Components` iterator.
+    The `match rr_type` arms and the `types: &[…]` lists are *generated from the source*
+    (`QV.Gen.rdataComponentsArms`, `QV.Gen.rdataComponentTypes`, extractor `extract_rdata.py`);
+    `none` = the generated tables do not have the expected shape. -/
+def componentTypes (cls ty : Nat) : Option (List CompType) :=
+  match QV.Rdata.componentTypesOf
+      (QV.Rdata.lookup Gen.rdataComponentsArms Gen.rdataComponentsDefault cls ty) with
+  | some tys => tys.mapM convCompType
+  | none => none
 
 /-- `hint_pointer_vec.push(..)`: silently dropped when full or absent -/
 def hvPush (p : Option Nat) : M Unit := M.modify fun s =>
@@ -338,6 +326,12 @@ def writeComponents : List CompType → List UInt8 → M Unit
       tryPush (rdata.take k)
       writeComponents ts (rdata.drop k)
 
+/-- `for component in rdata.components(class, rr_type)` -/
+def writeRdata (cls ty : Nat) (rdata : List UInt8) : M Unit :=
+  match componentTypes cls ty with
+  | some ts => writeComponents ts rdata
+  | none => M.panic          -- the generated dispatch tables are malformed
+
 /-- `Ttl::from(u32)` (src/rr/ttl.rs): values above `i32::MAX` become 0 -/
 def ttlFrom (raw : Nat) : Nat := if raw > 2147483647 then 0 else raw
 
@@ -356,7 +350,7 @@ def addRr (hint : Hint) (owner : WName) (ty cls ttl : Nat) (rdata : List UInt8) 
   else if av - rdlengthStart < 2 then M.fail .Truncation
   else do
     M.modify fun s => { s with cursor := s.cursor + 2 }
-    writeComponents (componentTypes cls ty) rdata
+    writeRdata cls ty rdata
     let cur' ← M.gets (·.cursor)
     if cur' < rdlengthStart + 2 then M.panic
     else write rdlengthStart (u16be ((cur' - rdlengthStart - 2) % 65536))
